@@ -18,16 +18,23 @@ SPEC = {
              "limits below and above buffer/2, cancellation) compared byte-exactly with the model; bridge cases: the real "
              "tunnel.Bridge under the real SessionManager.runBridgeLifecycle with both directions running concurrently "
              "(ping-pong, one end finishing first, both racing to EOF), judged by the theorem's predicate; non-trivial = "
-             "more than one read event; distinct = distinct case strings"),
+             "more than one read event; distinct = distinct case strings; reattach cases: the source end re-attaches "
+             "(SetSourceConnection) during a chosen Read of the old connection with the other direction at rest, compared "
+             "with the model incl. which source connection every byte of the target is written to; reattachfree: the same "
+             "while the target streams (schedule-independent clauses only; second binary built with `go build -race`, a "
+             "race report is a failing observation); bridgestall: the statistics backend does not answer during the final "
+             "traffic report — both ends must already be closed"),
     "trusted_base": [
         "Lean 4.33 kernel; axioms propext, Classical.choice, Quot.sound only (audited per theorem on every run)",
         "extractor: CopyBufferSize, BatchUpdateThreshold; call skeletons of CopyWithControl, waitLimiterN, runBridgeLifecycle (compared by decide)",
         "differential harness /verif/harness/c02 with scripted net.Conn doubles; shim VerifStartBridge mirrors the tail of startSourceBridge",
+        "Go race detector (race build of the c02 harness): checks that accesses to the installed source forwarder are ordered by sourceConnMu, which the model assumes (one atomic cell); a dynamic check, not a proof",
         "golang.org/x/time/rate: WaitN(k) with k <= burst fails only on context cancellation (documented contract; parameter of the model)",
     ],
     "assumptions": [
         "closure 'within bounded time' is wall-clock: the model proves the close is issued; the harness observes it under a 15 s watchdog (partial)",
         "quota/traffic-meter path (QuotaEnforcer) not modelled (nil in the harness); cross-node forwarding is C10",
-        "the periodic context check (every 10000 iterations) is not modelled separately from read errors after close",
+        "a source connection replaced twice during one copy (the middle one is never read) is outside sourceLoop; re-attachment after the bridge has closed is C16's late-attach clause",
+        "the statistics backend is external: closeRun stops at a stalled ManagerBase.Close; 'the server forgets the tunnel' then waits for the backend (not claimed under a stalled backend)",
     ],
 }
